@@ -1,11 +1,16 @@
 (** * C08 — copy makes the destination equal to the source over the requested window.
-    Proved here: what the command does around the write (never modifies the source — the source
-    is not part of the result; creates a missing destination; writes nothing unless it reports
-    success; does nothing when nothing differs).  The slot-wise equality after a successful copy
-    is the composition of C01 (fetch = live of the log), [spec_archive_update_frame] and
-    [live_prepend_window]; its end-to-end statement over [copy_core] is listed as open in DESIGN.md. *)
+    End to end ([C08_successful_copy_equalizes]): for every destination content that some history of
+    updates can produce, every valid layout, every clock of the domain, every window, archive
+    selection and NaN mode, and every well-formed source series list (in particular the one read from
+    any source file, [C08_source_lists_are_well_formed]): a copy that reports success leaves a
+    destination which, opened afresh, answers the same fetch with series of the same ranges whose
+    difference from the source list is empty — slot by slot the destination holds the source's value
+    wherever it is to be copied ([C08_empty_difference_slotwise]); hence a second copy does nothing
+    ([C08_repeat_copy_changes_nothing]) and diff is clean ([C08_then_diff_is_clean]).  Around the
+    write: a failure leaves an existing destination untouched, a missing destination is created,
+    nothing is written when nothing differs. *)
 From WT Require Import Base.Wrap Base.ListX Model.Time Model.Ring Model.Update Spec.LogSpec Model.Handle Model.Cmd
-  Proofs.CmdProofs Proofs.FrameProofs.
+  Proofs.TimeProofs Proofs.FetchProofs Proofs.ChainProofs Proofs.HistoryProofs Proofs.CmdProofs Proofs.FrameProofs Proofs.CopyProofs Proofs.LayoutBridge.
 
 Theorem C08_failure_leaves_existing_dest F src dh o until now :
   r_status (copy_core F src (Some dh) o until now) <> StOk ->
@@ -45,3 +50,87 @@ Theorem C08_window_write_is_local es log f S n N e :
   match find_time es e with Some v => Some v | None => live_opt log (S * N) e end.
 Proof. exact (live_prepend_window es log f S n N e). Qed.
 Print Assumptions C08_window_write_is_local.
+
+(** ** end to end *)
+Theorem C08_successful_copy_equalizes F sh sl dest o until now d logs :
+  (match dest with Some _ => opened dest
+   | None => match create (co_method o) (co_xff o) (co_layout o) with Some fresh => Some (sync fresh) | None => None end end) = Some d ->
+  Rel_all (hd_arcs d) logs -> 1 <= hd_method d <= 6 ->
+  wf_layout_full (layout_of (hd_arcs d)) -> clock_ok (layout_of (hd_arcs d)) now ->
+  0 <= co_from o < 2^32 -> 0 <= until < 2^32 -> co_from o <= until -> Forall series_wf sl ->
+  r_status (copy_core F (RdOk sh sl) dest o until now) = StOk ->
+  exists dfin dread dl',
+    r_dest (copy_core F (RdOk sh sl) dest o until now) = Some dfin /\ reopen dfin = Some dread /\
+    layout_eqb (layout_of_arcs (hd_arcs sh)) (layout_of_arcs (hd_arcs dread)) = true /\
+    fetch_ts_list (hd_arcs dread) (co_archive o) (co_from o) until now = TslOk dl' /\
+    all_eq_range_step sl dl' = true /\
+    all_empty (fst (tsl_diff (co_copy_nan o) sl dl')) && all_empty (snd (tsl_diff (co_copy_nan o) sl dl')) = true.
+Proof. exact (copy_core_equalizes F sh sl dest o until now d logs). Qed.
+Print Assumptions C08_successful_copy_equalizes.
+
+(** an empty difference, slot by slot: same window, same step, same count, and the destination
+    holds the source's value wherever the source has one (everywhere, with NaN copying) *)
+Theorem C08_empty_difference_slotwise cn sl dl :
+  all_eq_range_step sl dl = true ->
+  all_empty (fst (tsl_diff cn sl dl)) && all_empty (snd (tsl_diff cn sl dl)) = true ->
+  forall q, 0 <= q < zlen sl ->
+    let s := znth (empty_series 0) sl q in let d := znth (empty_series 0) dl q in
+    s_from d = s_from s /\ s_until d = s_until s /\ s_step d = s_step s /\ zlen (s_vals d) = zlen (s_vals s) /\
+    forall k, 0 <= k < zlen (s_vals s) ->
+      (cn = true \/ is_nan (znth NaN (s_vals s) k) = false) -> veq (znth NaN (s_vals s) k) (znth NaN (s_vals d) k) = true.
+Proof. exact (empty_difference_slotwise cn sl dl). Qed.
+Print Assumptions C08_empty_difference_slotwise.
+
+(** the series list read from any source file that a history of updates can produce is well formed *)
+Theorem C08_source_lists_are_well_formed f aid from until now h l :
+  (forall h', opened f = Some h' -> represented now h') ->
+  0 <= from < 2^32 -> 0 <= until < 2^32 -> from <= until ->
+  read_file f aid from until now = RdOk h l -> Forall series_wf l.
+Proof. exact (read_file_wf f aid from until now h l). Qed.
+Print Assumptions C08_source_lists_are_well_formed.
+
+(** repeating the same copy changes nothing *)
+Theorem C08_repeat_copy_changes_nothing F sh sl dest o until now d logs :
+  (match dest with Some _ => opened dest
+   | None => match create (co_method o) (co_xff o) (co_layout o) with Some fresh => Some (sync fresh) | None => None end end) = Some d ->
+  Rel_all (hd_arcs d) logs -> 1 <= hd_method d <= 6 ->
+  wf_layout_full (layout_of (hd_arcs d)) -> clock_ok (layout_of (hd_arcs d)) now ->
+  0 <= co_from o < 2^32 -> 0 <= until < 2^32 -> co_from o <= until -> Forall series_wf sl ->
+  r_status (copy_core F (RdOk sh sl) dest o until now) = StOk ->
+  exists dfin, r_dest (copy_core F (RdOk sh sl) dest o until now) = Some dfin /\
+               copy_core F (RdOk sh sl) (Some dfin) o until now = mkResult StOk (Some dfin) [].
+Proof.
+  intros Hd HRA Hm Hwff Hclock Hfrom Huntil Hfu Hswf Hok.
+  destruct (copy_core_equalizes F sh sl dest o until now d logs Hd HRA Hm Hwff Hclock Hfrom Huntil Hfu Hswf Hok)
+    as (dfin & dread & dl' & Hdest & Hre & Hlay & Hdl & Heq & Hemp).
+  exists dfin. split; [exact Hdest|].
+  destruct (create (co_method o) (co_xff o) (co_layout o)) as [fresh|] eqn:Ec.
+  - exact (copy_core_nothing_to_do F sh sl dfin dread dl' o until now fresh Ec Hre Hdl Hlay Heq Hemp).
+  - unfold copy_core in Hok. rewrite Ec in Hok. cbn in Hok. discriminate.
+Qed.
+Print Assumptions C08_repeat_copy_changes_nothing.
+
+(** ... and diff over the same window reports no difference (NaN copying on) *)
+Theorem C08_then_diff_is_clean fsub check sh sl dread dl' :
+  layout_eqb (layout_of_arcs (hd_arcs sh)) (layout_of_arcs (hd_arcs dread)) = true ->
+  all_eq_range_step sl dl' = true ->
+  all_empty (fst (tsl_diff true sl dl')) && all_empty (snd (tsl_diff true sl dl')) = true ->
+  diff_core fsub check sh sl dread dl' = (StOk, []).
+Proof.
+  intros Hlay Heq Hemp. unfold diff_core. rewrite Hlay, Heq. cbn [negb andb]. rewrite andb_false_r.
+  destruct (tsl_diff true sl dl') as [a b]. cbn [fst snd] in Hemp. rewrite Hemp. reflexivity.
+Qed.
+Print Assumptions C08_then_diff_is_clean.
+
+(** the premises are satisfiable: a freshly created destination is represented by empty logs *)
+Example C08_example : exists d logs,
+  create 2 0 [(1, 7); (7, 10)] = Some d /\ Rel_all (hd_arcs (sync d)) logs /\
+  wf_layout_full (layout_of (hd_arcs (sync d))) /\ clock_ok (layout_of (hd_arcs (sync d))) 1700000000.
+Proof.
+  destruct wf_layout_example as [Hwf Hck].
+  destruct (wf_layout_full_of_wf_layout _ Hwf) as [Hfull HL].
+  destruct (create_Rel_all _ HL) as [HRA Hlay].
+  exists (mkHandle 2 0 70 (create_arcs [(1, 7); (7, 10)]) (create_arcs [(1, 7); (7, 10)]) false).
+  exists (map (fun _ => []) [(1, 7); (7, 10)]). split; [vm_compute; reflexivity|].
+  cbn [sync hd_arcs]. split; [exact HRA|]. rewrite Hlay. split; assumption.
+Qed.
